@@ -87,7 +87,7 @@ def expand_task(t):
                 s.close()
                 s = None
     except ReplayDiverged as e:
-        return {'diverged': str(e), 'history': history}
+        return {'diverged': str(e), 'history': history, 'ops': ops}
     finally:
         if s is not None:
             s.close()
@@ -137,7 +137,27 @@ def bfs(ctx, factory_name, params, max_depth, max_states=None, ops_chunk=12, rec
                     tasks.append((factory_name, params, hist, key, ops[i:i + ops_chunk]))
             nxt = []
             aborted = False
-            for r in pool.imap(expand_task, tasks):
+            def results(tasklist):
+                # a task whose replay of its prefix diverges is run a second time before the divergence is believed
+                # (real child processes and timers make some sessions sensitive to extreme machine load)
+                again = []
+                bytask = {}
+                for t in tasklist:
+                    bytask[repr((t[2], t[4]))] = t
+                for r in pool.imap(expand_task, tasklist):
+                    if isinstance(r, dict) and 'diverged' in r and repr((r.get('history'), r.get('ops'))) in bytask and not getattr(results, 'second', False):
+                        again.append(bytask[repr((r['history'], r['ops']))])
+                        continue
+                    yield r
+                if again:
+                    ctx.notes.append('%d expansion task(s) re-run after a replay divergence' % len(again))
+                    results.second = True
+                    try:
+                        for r in pool.imap(expand_task, again):
+                            yield r
+                    finally:
+                        results.second = False
+            for r in results(tasks):
                 if '__crash__' in r:
                     ctx.add_violation(Violation('crash', r['__crash__'], r['stderr'], {'task': r['task']}))
                     continue
